@@ -226,3 +226,19 @@ func Getpid() int { return 4242 }
 func NewDigest(alg digest.Algorithm, h hash.Hash) digest.Digest {
 	return digest.Digest(string(alg) + ":" + string(h.Sum(nil)))
 }
+
+// ---------------------------------------------------------------- sort.Slice (reflection free)
+
+// AnyLen and AnySwap are engine intrinsics (length / element swap of a slice held in an interface).
+func AnyLen(x any) int        { return 0 }
+func AnySwap(x any, i, j int) {}
+
+//gosym:replace sort.Slice sort.SliceStable
+func SortSlice(x any, less func(i, j int) bool) {
+	n := AnyLen(x)
+	for i := 1; i < n; i++ { // insertion sort: stable, and the harness slices are short
+		for j := i; j > 0 && less(j, j-1); j-- {
+			AnySwap(x, j, j-1)
+		}
+	}
+}
